@@ -716,7 +716,12 @@ def derive_world(rng, tier, base, name, methods):
         mg["order"] = rng.choice(W.admissible_orders(m, ph["nv"]))
         changed = True
     if rng.random() < 0.2:
-        q["volume_ratio"] = rng.choice([1.1, 1.15, 1.25, 1.3])
+        # only wider: the pressure grid was placed inside the range the base's ratio gives; a smaller ratio shrinks that range (the requested
+        # pressures would leave it -- outside the property's precondition)
+        cur = q.get("volume_ratio", 1.2)
+        wider = [r for r in (1.15, 1.2, 1.25, 1.3) if r > cur]
+        if wider:
+            q["volume_ratio"] = rng.choice(wider)
     if rng.random() < 0.15:
         q["NT"] = rng.randint(4, 9)
     w["derived_from"] = base["name"]
